@@ -166,7 +166,9 @@ func Load(repoDir, goarch string, tests bool) (*Program, error) {
 	}
 	// promotion wrappers of embedded helper structs stand for the outer type's methods; they belong to no ssa package
 	for fn := range PromoWrapper {
-		if fn.Parent() == nil && !absorbed[fn] {
+		// (only those that stand for a method the pinned type had; a new helper method promoted along is absorbed
+		// into its callers and read there)
+		if fn.Parent() == nil && !absorbed[fn] && InBaseline(fn) {
 			addFn(fn)
 		}
 	}
